@@ -72,7 +72,9 @@ type Key = u8;
 enum Rk {
     Ann { t: u8, h: Key, stop: bool, seeder: bool, dl: u32, res: (i32, i32, Vec<Key>) },
     ScrT { t: u8, res: (i32, i32) },
-    CleanT { t: u8, now: u32, forbidden: bool },
+    /// one torrent's share of cleaning pass `c`; `rep_peers` = the peer total that pass reported (statistics), which must
+    /// equal the sum over its three torrents of the peers left at the instant each was cleaned
+    CleanT { t: u8, now: u32, forbidden: bool, c: u8, rep_peers: u32 },
 }
 
 #[derive(Clone, Debug)]
@@ -84,7 +86,10 @@ struct Rec {
 
 type MState = BTreeMap<u8, Vec<(Key, bool, u32)>>;
 
-fn apply(st: &mut MState, k: &Rk) -> bool {
+/// per cleaning pass: (torrents applied so far, peers left in them at their instants)
+type Acc = Vec<(u8, u32)>;
+
+fn apply(st: &mut MState, acc: &mut Acc, k: &Rk) -> bool {
     match k {
         Rk::Ann { t, h, stop, seeder, dl, res } => {
             let l = st.entry(*t).or_default();
@@ -111,7 +116,7 @@ fn apply(st: &mut MState, k: &Rk) -> bool {
             };
             res.0 == s && res.1 == l
         }
-        Rk::CleanT { t, now, forbidden } => {
+        Rk::CleanT { t, now, forbidden, c, rep_peers } => {
             if *forbidden {
                 st.remove(t);
             }
@@ -121,7 +126,15 @@ fn apply(st: &mut MState, k: &Rk) -> bool {
                     st.remove(t);
                 }
             }
-            true
+            // C20 under concurrency: the pass's reported peer total is the sum of what it left in each torrent
+            let left = st.get(t).map_or(0, |l| l.len()) as u32;
+            while acc.len() <= *c as usize {
+                acc.push((0, 0));
+            }
+            let a = &mut acc[*c as usize];
+            a.0 += 1;
+            a.1 += left;
+            a.0 < 3 || a.1 == *rep_peers
         }
     }
 }
@@ -141,7 +154,7 @@ fn state_hash(st: &MState) -> u64 {
 
 /// WGL-style search for a linearization. Returns true if one exists.
 fn linearizable(recs: &[Rec]) -> bool {
-    fn go(recs: &[Rec], done: u128, st: &MState, memo: &mut HashSet<(u128, u64)>, budget: &mut u64) -> bool {
+    fn go(recs: &[Rec], done: u128, st: &MState, acc: &Acc, memo: &mut HashSet<(u128, u64)>, budget: &mut u64) -> bool {
         if done.count_ones() as usize == recs.len() {
             return true;
         }
@@ -149,7 +162,11 @@ fn linearizable(recs: &[Rec]) -> bool {
             return true; // search budget exhausted: never report on an undecided history
         }
         *budget -= 1;
-        if !memo.insert((done, state_hash(st))) {
+        let mut sh = state_hash(st);
+        for (n, p) in acc {
+            sh = (sh ^ (*n as u64 | (*p as u64) << 8)).wrapping_mul(0x100000001b3).rotate_left(7);
+        }
+        if !memo.insert((done, sh)) {
             return false;
         }
         // an operation may be next if no other pending operation returned before it was invoked
@@ -159,7 +176,8 @@ fn linearizable(recs: &[Rec]) -> bool {
                 continue;
             }
             let mut st2 = st.clone();
-            if apply(&mut st2, &r.k) && go(recs, done | (1u128 << i), &st2, memo, budget) {
+            let mut acc2 = acc.clone();
+            if apply(&mut st2, &mut acc2, &r.k) && go(recs, done | (1u128 << i), &st2, &acc2, memo, budget) {
                 return true;
             }
         }
@@ -170,7 +188,7 @@ fn linearizable(recs: &[Rec]) -> bool {
     }
     let mut memo = HashSet::new();
     let mut budget = 2_000_000u64;
-    go(recs, 0, &MState::new(), &mut memo, &mut budget)
+    go(recs, 0, &MState::new(), &Acc::new(), &mut memo, &mut budget)
 }
 
 static CLOCK: AtomicU64 = AtomicU64::new(0);
@@ -188,6 +206,7 @@ struct World {
     access: Arc<AccessListArcSwap>,
     forbid: Vec<u8>,
     hist: Mutex<Vec<Rec>>,
+    cleans: AtomicU64,
 }
 
 fn do_op(w: &World, op: &Op, rng: &mut SmallRng) {
@@ -235,12 +254,16 @@ fn do_op(w: &World, op: &Op, rng: &mut SmallRng) {
             }
         }
         Op::Clean { now } => {
+            // statistics of its own per pass: concurrent passes would overwrite each other's totals in a shared one
+            let st: CachePaddedArc<IpVersionStatistics<SwarmWorkerStatistics>> = Default::default();
+            let c = w.cleans.fetch_add(1, Ordering::SeqCst) as u8;
             let inv = tick();
-            w.maps.clean_and_update_statistics(&w.config, &w.stats, &w.tx, &w.access, SecondsSinceServerStart::new_raw(*now), false);
+            w.maps.clean_and_update_statistics(&w.config, &st, &w.tx, &w.access, SecondsSinceServerStart::new_raw(*now), false);
             let ret = tick();
+            let rep_peers = st.ipv4.peers.load(Ordering::Relaxed) as u32;
             let mut h = w.hist.lock().unwrap();
             for t in 0..3u8 {
-                h.push(Rec { inv, ret, k: Rk::CleanT { t, now: *now, forbidden: w.forbid.contains(&t) } });
+                h.push(Rec { inv, ret, k: Rk::CleanT { t, now: *now, forbidden: w.forbid.contains(&t), c, rep_peers } });
             }
         }
     }
@@ -263,7 +286,7 @@ fn scenario_body(scn: &Scn) {
         }
     }
     let access: Arc<AccessListArcSwap> = Arc::new(arc_swap::ArcSwap::from_pointee(list));
-    let w = Arc::new(World { maps: TorrentMaps::default(), config, stats: Default::default(), tx, access, forbid: scn.forbid.clone(), hist: Mutex::new(Vec::new()) });
+    let w = Arc::new(World { maps: TorrentMaps::default(), config, stats: Default::default(), tx, access, forbid: scn.forbid.clone(), hist: Mutex::new(Vec::new()), cleans: AtomicU64::new(0) });
     let mut rng = SmallRng::seed_from_u64(7);
     for op in &scn.pre {
         do_op(&w, op, &mut rng);
